@@ -105,6 +105,10 @@ def run(res, ctx):
                     if rnd.random() < 0.1 and len(by) > 8:
                         cutat = rnd.randrange(8, len(by))
                         reqs2.append(sx.show(['apply-bytes', fmt, by[:cutat], L])); meta.append((L, script, bad, fmt, 'truncated'))
+                    if rnd.random() < 0.06 and len(script) >= 1:
+                        # an unknown discriminant in the first entry (the script's first byte after the u64 length)
+                        by2 = list(by); by2[8] = str(rnd.choice([4, 9, 200]))
+                        reqs2.append(sx.show(['apply-bytes', fmt, by2, L])); meta.append((L, script, bad, fmt, 'bad-discriminant'))
         rc, rows = core.run_oracle(binp, reqs2)
         rc, out = core.run_driver([r[0] for r in rows])
         for idx, row in enumerate(rows):
